@@ -65,9 +65,17 @@ package opshell
 //@   on recv s.och(cl, ok): assert(!pending, "previous_line_handled"); pending = ok; cur = cl
 //@   on enter Shell.writePlain(ss, line): assert(pending && ss == s && cur.Plain && line == cur.Line, "plain_line_written_verbatim"); pending = false
 //@   on enter Shell.Logf(ss, c, nts, f, v): assert(pending && ss == s && !cur.Plain && f == "%s" && boxes(v[0], cur.Line) && c == cur.Color && nts == cur.NoTimestamp, "status_line_through_constant_format"); pending = false
+//@   ghost werr bool = false
+//@   ghost closedOch bool = false
+//@   on recv s.och(cl2, ok2): if !ok2 { closedOch = true }
+//@   on call Shell.writePlain(ss, line) (e): werr = e != nil
+//@   on call Shell.Logf(ss, c, nts, f, v) (n, e): werr = e != nil
 //@   loop 1
 //@     invariant handled: !pending
+//@     invariant keeps_going_while_writes_succeed: !werr && !closedOch
 //@   ensures nothing_left: !pending
+//@   ensures stops_only_when_cancelled_closed_or_a_write_failed: done(ctx) || closedOch || werr
+//@   ensures write_failure_is_reported: imp(werr, err != nil)
 
 // The timer callback: unmutes only after a full pause without plain writes.
 //@ func New#1()
@@ -111,9 +119,14 @@ package opshell
 //@   ghost opened bool = false
 //@   ghost raw bool = false
 //@   ghost nCleanup int = 0
-//@   on call os.Open(n) (f, e): opened = e == nil
-//@   on call goxterm.MakeRaw(fd) (os, e): assert(opened && nCleanup == 0 && fd == int(s.ttyF.Fd()), "raw_mode_on_the_opened_tty"); raw = e == nil
+//@   on call os.Open(n) (f, e): opened = e == nil; openErr = e != nil
+//@   on call goxterm.MakeRaw(fd) (os, e): assert(opened && nCleanup == 0 && fd == int(s.ttyF.Fd()), "raw_mode_on_the_opened_tty"); raw = e == nil; rawErr = e != nil
 //@   on enter cleanup(): nCleanup++
+//@   ghost openErr bool = false
+//@   ghost sizeErr bool = false
+//@   on call Shell.resize(ss) (e): assert(ss == &s && opened, "initial_size_taken_from_the_opened_tty"); sizeErr = e != nil
+//@   ghost rawErr bool = false
+//@   ensures starts_whenever_every_step_succeeds: imp(!openErr && !sizeErr && !rawErr, err == nil)
 //@   ensures failure_returns_nothing: imp(err != nil, sh == nil && cleanup == nil)
 //@   ensures success_returns_shell_and_cleanup: imp(err == nil, sh != nil && cleanup != nil)
 //@   ensures success_is_raw_and_not_cleaned: imp(err == nil, raw && nCleanup == 0)
@@ -169,7 +182,11 @@ package opshell
 //@   ghost n int = 0
 //@   on call goxterm.GetSize(fd) (w, h, e): assert(fd == int(s.ttyF.Fd()), "size_of_the_opened_tty"); gw = w; gh = h; gerr = e != nil
 //@   on call goxterm.Terminal.SetSize(t, w, h) (e): assert(t == s.t && !gerr && w == gw && h == gh && n == 0, "terminal_gets_the_ttys_size"); n++
+//@   ghost serr bool = false
+//@   on call goxterm.Terminal.SetSize(t, w, h) (e): serr = e != nil
 //@   ensures size_failure_reported: imp(gerr, err != nil && n == 0)
+//@   ensures succeeds_when_both_steps_succeed: imp(!gerr && !serr, err == nil)
+//@   ensures set_failure_reported: imp(serr, err != nil)
 
 // insert: what Ctrl+I sends to the shell is exactly what the generator
 // returned, once, and only if it is not empty.
